@@ -4,6 +4,8 @@
 //	              plain Go map as oracle; writes the case file for the Coq-extracted model and the real results
 //	-mode loader  loader.LoadMany driven directly with stub functions (mov eax,imm32; ret); entry offsets, the bytes at
 //	              each entry and the value returned by calling it, vs the expectation "item i gets its own code"
+//	-mode served  histories of FindOrCompile / pretouch calls on the real encoder program caches (fabricated types, stub compiler):
+//	              which program serves (type, pointer-value flag)
 //	-mode hist    end-to-end: identical Marshal/Unmarshal probes in FRESH CHILD PROCESSES after different preludes
 //	              (other types first, other orders, Pretouch/PretouchMany with compile options, thousands of generated types);
 //	              oracle = the child with an empty prelude
@@ -41,6 +43,8 @@ func main() {
 		pcacheMain()
 	case "loader":
 		loaderMain()
+	case "served":
+		servedMain()
 	case "hist":
 		histMain()
 	case "child":
